@@ -223,6 +223,18 @@ def getAR (cfg : Cfg) (ac : AcReply) (cas : Cas) : List Call × Outcome :=
     | (s, none) => (s.trace, .result)
     | (s, some c) => (s.trace, .error c)
 
+/-- `completenessCheckingBlobAccess.GetFromComposite`: `slicer.Slice(ba.Get(parent), child)`.
+The slicer is an external collaborator that only has the buffer `Get` produced: from an error
+buffer it can obtain nothing but that error; from the checked result it produces the child
+(`sliceErr = none`) or fails with a code of its own. -/
+def getFromComposite (cfg : Cfg) (ac : AcReply) (cas : Cas) (sliceErr : Option Code) : List Call × Outcome :=
+  match getAR cfg ac cas with
+  | (tr, .result) =>
+    (tr, match sliceErr with
+      | none => .result
+      | some c => .error c)
+  | (tr, .error c) => (tr, .error c)
+
 /-! ### The scripted CAS of the driver: presence oracle + blob table + fault script -/
 
 /-- `FindMissing` answers `batch ∩ missing`; `Get` serves the blob registered for the digest
